@@ -27,7 +27,9 @@ CASE_TIMEOUT = {"quick": 1500, "thorough": 6000}
 
 UNIT = {"CC": ("[<]CC[>]", "CC"), "CO": ("[<]CO[>]", "CO"), "CS": ("[<]CS[>]", "CS"), "CCl": ("[<]C(Cl)C[>]", "C(Cl)C"), "CN": ("[<]C(N)C[>]", "C(N)C"), "CF2": ("[<]C(F)(F)[>]", "C(F)(F)"), "O": ("[<]O[>]", "O"),
         # isotope-labelled heavy atom (the generator weighs the real molecule, labels included)
-        "C13": ("[<]C(N)[13CH2][>]", "C(N)[13CH2]")}
+        "C13": ("[<]C(N)[13CH2][>]", "C(N)[13CH2]"),
+        # a side group that looks like the beginning of the next unit (a second, dead-end placement at the growing end)
+        "CEt": ("[<]C(CC)(N)C[>]", "C(CC)(N)C")}
 
 
 def instances(tier):
@@ -64,6 +66,7 @@ def instances(tier):
     # outside the ensemble)
     out.append({"start": ("prefix", "OCC"), "blocks": [("C13", "uniform", (0, 300))], "suffix": "[Si]"})
     out.append({"start": ("prefix", "OCC"), "blocks": [("CN", "poisson", (3.0,))], "suffix": "[Si]"})
+    out.append({"start": ("prefix", "OCC"), "blocks": [("CEt", "uniform", (0, 300))], "suffix": "[Si]"})
     out.append({"start": ("prefix", "OCC"), "blocks": [("CN", "uniform", (0, 200)), ("CO", "poisson", (3.0,))], "suffix": "[Si]"})
     # integer-valued laws with unit masses whose cumulative values have fractional parts below and above one half
     out.append({"start": ("prefix", "N"), "blocks": [("CCl", "flory_schulz", (0.01,))], "suffix": "F"})
